@@ -854,12 +854,14 @@ class UsersDictionary(utils.IterableMap):
             del self._nameCache[self._nameCache[id]]
             del self._nameCache[id]
         if id is not None:
+            # The caches drop everything when they are full, which can happen
+            # between the two halves of an entry: the other half may be gone.
             if id in self._nameCache:
-                del self._nameCache[self._nameCache[id]]
+                self._nameCache.pop(self._nameCache[id], None)
                 del self._nameCache[id]
             if id in self._hostmaskCache:
                 for hostmask in self._hostmaskCache[id]:
-                    del self._hostmaskCache[hostmask]
+                    self._hostmaskCache.pop(hostmask, None)
                 del self._hostmaskCache[id]
 
     def setUser(self, user, flush=True):
@@ -897,11 +899,11 @@ class UsersDictionary(utils.IterableMap):
         """Removes a user from the database."""
         del self.users[id]
         if id in self._nameCache:
-            del self._nameCache[self._nameCache[id]]
+            self._nameCache.pop(self._nameCache[id], None)
             del self._nameCache[id]
         if id in self._hostmaskCache:
             for hostmask in list(self._hostmaskCache[id]):
-                del self._hostmaskCache[hostmask]
+                self._hostmaskCache.pop(hostmask, None)
             del self._hostmaskCache[id]
         self.flush()
 
